@@ -127,11 +127,16 @@ pub struct GenCtx {
     pub mode: Mode,
 }
 
+/// `--bias <name>`: a run that spends its histories on one campaign (`pump`: profit taking that empties
+/// the vault, then liquidation of the losers)
+pub static BIAS: std::sync::OnceLock<String> = std::sync::OnceLock::new();
+
 impl GenCtx {
     pub fn new(r: &mut Rng, ntx: u64, mode: Mode) -> Self {
         let p = if mode == Mode::Fault { 60 } else { 40 };
-        let scenario_at = if r.chance(p, 100) { Some(ntx / 2) } else { None };
-        let scenario_kind = if r.chance(45, 100) { 1 } else { 0 };
+        let pump = BIAS.get().map(|b| b == "pump").unwrap_or(false);
+        let scenario_at = if pump { Some(ntx / 4) } else if r.chance(p, 100) { Some(ntx / 2) } else { None };
+        let scenario_kind = if pump || r.chance(45, 100) { 1 } else { 0 };
         let shutdown_at = if r.chance(15, 100) { Some(ntx / 3) } else { None };
         let market = match r.below(100) {
             0..=11 => Some((1, ntx / 2)),
